@@ -72,7 +72,7 @@ def spec_general(d):
     for _, svcs in d["devices"]:
         if svcs is None:
             continue
-        for s in svcs:
+        for s in (svcs if isinstance(svcs, (list, tuple)) else [svcs]):     # `services: name` lists one service
             cs.append(z3.Or(*[EQ(s, t) for t in d["services"]]) if d["services"] else z3.BoolVal(False))
     return z3.And(*cs)
 
@@ -151,7 +151,8 @@ def build(d):
     fcp.impls = [Impl(x[0], x[1], x[2], dict(({} if x[3] is None else {"id": x[3]}), **(x[4] if len(x) > 4 else {})),
                       [], meta) for x in d["impls"]]
     fcp.services = [Service(n, k, [], meta=meta) for k, n in enumerate(d["services"])]
-    fcp.devices = [Device(n, ({} if s is None else {"services": list(s)}), meta) for n, s in d["devices"]]
+    fcp.devices = [Device(n, ({} if s is None else {"services": list(s) if isinstance(s, (list, tuple)) else s}), meta)
+                   for n, s in d["devices"]]
     return fcp
 
 
@@ -241,7 +242,9 @@ def skeletons(tier):
     def k_devices(S):
         st = [(S.A("s1"), [(S.A("f1"), U8)])]
         return dict(structs=st, enums=[], impls=default_impls(st), services=[S.A("sv1"), S.A("sv2")],
-                    devices=[(S.A("d1"), [S.A("r1"), S.A("r2")]), (S.A("d2"), None), (S.A("d3"), [S.A("r3")])])
+                    devices=[(S.A("d1"), [S.A("r1"), S.A("r2")]), (S.A("d2"), None), (S.A("d3"), [S.A("r3")]),
+                             (S.A("d4"), "svc_one")])       # `services: svc_one,` - a single name instead of a list
+                                                            # (a concrete spelling: code may look at its characters)
 
     def k_devices_nosvc(S):
         st = [(S.A("s1"), [(S.A("f1"), U8)])]
@@ -323,7 +326,7 @@ def permute(d, variant):
     return dict(structs=p([(n, p(fs)) for n, fs in d["structs"]]),
                 enums=p([(n, p(es)) for n, es in d["enums"]]),
                 impls=p(d["impls"]), services=p(d["services"]),
-                devices=p([(n, None if s is None else p(s)) for n, s in d["devices"]]))
+                devices=p([(n, p(s) if isinstance(s, (list, tuple)) else s) for n, s in d["devices"]]))
 
 
 PRIME_TEXT = ('version: "3"\nstruct P { a @0: u8, }\nimpl can for P {\n    id: 1,\n}\n')
